@@ -75,6 +75,101 @@ def has_lone_surrogate(s):
     return any(0xD800 <= ord(c) <= 0xDFFF and not 0xDC80 <= ord(c) <= 0xDCFF for c in s)
 
 
+# ---- Unicode look-alikes of text that a field type parses ---------------------------------------------------
+DIGIT_SETS = {"fullwidth": 0xFF10, "arabic-indic": 0x0660, "extended-arabic-indic": 0x06F0, "devanagari": 0x0966, "mathematical-bold": 0x1D7CE, "mathematical-double-struck": 0x1D7D8}
+INVISIBLES = ["\u200b", "\u200d", "\u200e", "\u200f", "\u00ad", "\ufeff", "\u0301", "\u2060"]
+BLANKS = [" ", "\n", "\t", "\r\n", "\u00a0", "\u3000", "\x0b"]
+FULLWIDTH_PUNCT = {".": "\uff0e", ":": "\uff1a", "/": "\uff0f", "-": "\uff0d", "+": "\uff0b"}
+
+
+def lookalike_variants(text, rng, limit=26):
+    """Variants of a well-formed text that LOOK like it (or like a number in it) but are different code points: digits of other
+    scripts, full-width punctuation and letters, superscripts / circled / Roman numerals, invisible characters, surrounding
+    blanks and newlines, sign / underscore digit separators, radix prefixes, leading zeros."""
+    out = []
+    digits = [i for i, ch in enumerate(text) if ch in "0123456789"]
+    for name, base in DIGIT_SETS.items():
+        if digits:
+            i = rng.choice(digits)
+            out.append(text[:i] + chr(base + int(text[i])) + text[i + 1:])  # one digit
+        out.append("".join(chr(base + int(ch)) if ch in "0123456789" else ch for ch in text))  # every digit
+    if digits:
+        i = rng.choice(digits)
+        d = int(text[i])
+        for repl in ("\u2070\u00b9\u00b2\u00b3\u2074\u2075\u2076\u2077\u2078\u2079"[d], "\u24ea\u2460\u2461\u2462\u2463\u2464\u2465\u2466\u2467\u2468"[d],
+                     "\u2160" if d == 1 else "\u2163", "\u0031\ufe0f\u20e3"):
+            out.append(text[:i] + repl + text[i + 1:])
+        out += [text[:i] + "0" + text[i:], text[:i] + "+" + text[i:], text[:i] + "-" + text[i:], text[:i] + "0x" + text[i:], text[:i] + "0o" + text[i:],
+                text[:i + 1] + "_" + text[i + 1:] if i + 1 < len(text) else text + "_0", text[:i] + text[i] + "_0" + text[i + 1:]]
+    for ch, fw in FULLWIDTH_PUNCT.items():
+        if ch in text:
+            out += [text.replace(ch, fw), text.replace(ch, fw, 1)]
+    letters = [i for i, ch in enumerate(text) if ch in "abcdefABCDEF"]
+    if letters:
+        i = rng.choice(letters)
+        out.append(text[:i] + chr(ord(text[i]) - ord("a" if text[i].islower() else "A") + (0xFF41 if text[i].islower() else 0xFF21)) + text[i + 1:])
+        out.append("".join(chr(ord(ch) - ord("a") + 0xFF41) if ch in "abcdef" else ch for ch in text))
+    for inv in INVISIBLES:
+        pos = rng.randrange(len(text) + 1)
+        out.append(text[:pos] + inv + text[pos:])
+    for b in BLANKS:
+        out += [b + text, text + b]
+    mid = rng.randrange(1, max(2, len(text)))
+    out.append(text[:mid] + " " + text[mid:])
+    seen, uniq = set(), []
+    for v in out:
+        if v != text and v not in seen:
+            seen.add(v)
+            uniq.append(v)
+    rng.shuffle(uniq)
+    return uniq[:limit]
+
+
+def _raises(fn, *a):
+    try:
+        fn(*a)
+        return False
+    except Exception:  # noqa: BLE001
+        return True
+
+
+def ip_lookalikes(rng, flavour):
+    """look-alikes of addresses / networks; the reference parser of this Python (ipaddress) decides what is malformed"""
+    import ipaddress as _ip
+
+    out = []
+    if flavour == "network":
+        seeds, parse = ["10.0.0.0/8", "192.168.1.0/24", "2001:db8::/32", "::/0"], lambda t: _ip.ip_network(t, strict=False)
+    else:
+        seeds, parse = ["127.0.0.1", "10.0.0.1", "1.2.3.4", "255.255.255.255", "::1", "fe80::1", "2001:db8::8:800:200c:417a"], _ip.ip_address
+    for seed in rng.sample(seeds, 3):
+        for v in lookalike_variants(seed, rng, limit=14):
+            malformed = _raises(parse, v)
+            if flavour == "ipv4-legacy" and v.isascii():
+                malformed = False  # the deprecated type parses with inet_aton (trailing blanks, radix prefixes, short forms): left open
+            out.append(Cand(v, "reject" if malformed else "open", "lookalike"))
+    return out
+
+
+def hex_lookalikes(rng, nbytes):
+    """look-alikes of a hex digest of nbytes; malformed = bytes.fromhex refuses it or it is not nbytes long"""
+    good = gen._hex(rng, nbytes)
+    out = []
+    for v in lookalike_variants(good, rng, limit=16) + [good.replace(good[0], chr(0xFF10 + int(good[0], 16)) if good[0].isdigit() else good[0])]:
+        def ok(x=v):
+            if len(bytes.fromhex(x)) != nbytes:
+                raise ValueError
+        out.append((v, _raises(ok)))
+    return out
+
+
+def number_text_lookalikes(rng, seeds=("12", "80", "1", "0", "65535", "1.5", "-7")):
+    out = []
+    for seed in rng.sample(list(seeds), 3):
+        out += lookalike_variants(seed, rng, limit=8)
+    return out
+
+
 # ---- scalar pools -----------------------------------------------------------------------------------
 def _uint(bits, rng):
     top = (1 << bits) - 1
@@ -95,6 +190,7 @@ def _uint(bits, rng):
               Fraction(2 * (top + 1) + 1, 2), Decimal(str(top) + ".9"), Decimal("-0.1"), Decimal(top + 1), -rng.random() - 1e-6, top + 1 + rng.random() * 1000]
     out += [R(v, "outside-nonintegral") for v in nonint]
     out += [O(v) for v in ("12", "abc", "", b"7", [], (1,), True)]
+    out += [O(v, "lookalike") for v in number_text_lookalikes(rng)]
     return out
 
 
@@ -107,6 +203,7 @@ def _boolean(rng):
 
     out += [R(v, "fractional") for v in (0.5, 0.25, 1e-9, 0.999999, -0.5, 1.5, Fraction(1, 2), Fraction(1, 3), Decimal("0.5"), Decimal("0.001"), rng.uniform(0.001, 0.999))]
     out += [O(v, "wrongkind", ("int", int(v))) for v in (0.0, 1.0, Decimal(1), Fraction(0))]
+    out += [O(v, "lookalike") for v in number_text_lookalikes(rng, seeds=("1", "0", "true", "True"))]
     out += [O(v) for v in ("1", "0", "true", "", b"\x01", [], (0,))]
     return out
 
@@ -115,6 +212,7 @@ def _varint(rng):
     vals = list(gen.INT_BOUNDS) + [10**40, -(10**40), 2**200 + 1, rng.randint(-(2**70), 2**70), rng.randint(-1000, 1000)]
     out = [A(v, "boundary" if v in gen.INT_BOUNDS else "valid", ("int", v)) for v in vals]
     out += [O(v) for v in ("12", "-5", "abc", "", b"12", [], True)]
+    out += [O(v, "lookalike") for v in number_text_lookalikes(rng)]
     return out
 
 
@@ -124,6 +222,7 @@ def _float(rng):
         out.append(A(v, "boundary" if v in gen.FLOAT_BOUNDS else "valid", ("f64", _f64hex(v))))
     out += [A(v, "valid", ("f64", _f64hex(float(v)))) for v in (0, 1, -5, 2**53)]
     out += [O(v) for v in ("1.5", "nan", "abc", "", b"1.5", [], 10**400, True)]
+    out += [O(v, "lookalike") for v in number_text_lookalikes(rng, seeds=("1.5", "-0.25", "1e10", "inf", "nan", "12"))]
     return out
 
 
@@ -145,7 +244,8 @@ def _text_cands(rng, cls_lone=True):
 
 
 def _string(rng):
-    return _text_cands(rng) + [O(v) for v in (5, 1.5, True, [], ("a",), bytearray(b"ab"))]
+    look = [A(v, "lookalike", ("text", v)) for v in lookalike_variants("127.0.0.1 id=42", rng, limit=8)]
+    return _text_cands(rng) + look + [O(v) for v in (5, 1.5, True, [], ("a",), bytearray(b"ab"))]
 
 
 def _uri(rng):
@@ -153,6 +253,7 @@ def _uri(rng):
     out += [O(b, "bytes-for-text", ("text", b.decode("utf-8", "surrogateescape"))) for b in (b"http://example.com/x", b"http://x/\xff", b"")]
     out += [O(s, "lone-surrogate", ("text", s)) for s in LONE_SURROGATES[:3]]
     out += [O(v) for v in (5, [], 1.5)]
+    out += [O(v, "lookalike", ("text", v)) for v in lookalike_variants("http://10.0.0.1:8080/a?b=1", rng, limit=10)]
     return out
 
 
@@ -183,6 +284,8 @@ def _datetime(rng):
     out += [A(v, "epoch", ("aware",)) for v in (0, 1, -1, 1700000000, 1700000000.5, -86400.25)]
     out += [O(v) for v in ("not a date", "", [], _dt.date(2020, 1, 1), (2020, 1, 1), 10**30, float("nan"))]
     out += [O(b"2023-12-31T13:37:01.123456Z", "bytes-for-text", ("aware",))]
+    for seed in ("2023-01-10T16:12:01+02:00", "2019-09-26 07:58:30.996", "1700000000"):
+        out += [O(v, "lookalike", ("aware",)) for v in lookalike_variants(seed, rng, limit=7)]
     return out
 
 
@@ -208,6 +311,10 @@ def _digest(rng):
     # wrong container: neither a (md5, sha1, sha256) sequence nor a mapping
     out += [R(v, "malformed") for v in (m, "", "not a digest", 5, 0, 1.5, True, (), (m,), (m, s1), (m, s1, s2, None), [], [m], {m}, b"\x00" * 16)]
     out += [O(v) for v in ({"foo": "x"}, (m.encode(), None, None), {"md5": m.encode()})]
+    for v, malformed in hex_lookalikes(rng, 16):
+        out.append(Cand((v, None, None), "reject" if malformed else "open", "lookalike"))
+    for v, malformed in hex_lookalikes(rng, 32)[:6]:
+        out.append(Cand({"sha256": v}, "reject" if malformed else "open", "lookalike"))
     return out
 
 
@@ -218,6 +325,7 @@ def digest_attr_cands(rng, which):
     bad = ["aabb", "", "zz" * n, _hex(rng, n)[:-1], _hex(rng, n) + "00", _hex(rng, n - 1), _hex(rng, n + 1), "g" * (2 * n), _hex(rng, {16: 20, 20: 32, 32: 16}[n]), 5, 1.5, [], (1,)]
     out += [R(v, "malformed") for v in bad]
     out += [O(_hex(rng, n).encode(), "wrongkind")]
+    out += [Cand(v, "reject" if malformed else "open", "lookalike") for v, malformed in hex_lookalikes(rng, n)]
     return out
 
 
@@ -231,6 +339,7 @@ def _ipaddress(rng):
     out += [R(v, "malformed") for v in MALFORMED_IP]
     out += [R(v, "malformed") for v in (-1, 2**128, 2**128 + 5, -(2**32), b"\x01\x02\x03", b"\x00" * 5, b"\x00" * 17, b"")]
     out += [O(v) for v in (1.5, [], ("1.2.3.4",), True)]
+    out += ip_lookalikes(rng, "address")
     return out
 
 
@@ -238,6 +347,7 @@ def _ipnetwork(rng):
     out = [A(v, "valid") for v in gen.NETS]
     out += [R(v, "malformed") for v in ("10.0.0.0/33", "not a net", "1.2.3/8", "::/129", "10.0.0.0/8/8", "", "10.0.0.0/-1", "256.0.0.0/8", "::g/64", "1.2.3.4/abc", "/8")]
     out += [O(v, "wrongkind") for v in ("10.0.0.1/8", "2001:db8::1/32", 5, 2**40, 1.5, [], b"\x01\x02\x03\x04", -1, 2**128)]
+    out += ip_lookalikes(rng, "network")
     return out
 
 
@@ -246,6 +356,7 @@ def _ipv4address(rng):
     out += [A(v, "valid") for v in ("1.2.3.4", "10.1.1.1", 1, rng.randrange(2**32))]
     out += [R(v, "malformed") for v in ("not an ip", "1.2.3.4.5", "256.1.1.1", "::1", "", "1.2.3.4/8", "a.b.c.d", "1.2.3.999")]
     out += [O(v) for v in (-1, 2**32, 2**40, b"\x01\x02\x03\x04", [], 1.5)]  # not "malformed" in the statement's sense: out-of-range integers are accepted today
+    out += [c for c in ip_lookalikes(rng, "ipv4-legacy") if ":" not in c.value or c.exp == "reject"]
     return out
 
 
